@@ -598,4 +598,325 @@ theorem ci_merge (em : List (Nat × List Lc)) (n : Nat) (hm : MapInv em n) (bl :
         simp only [this, if_false]
         exact hxl.trans hai
 
+/-! ### the invariant along the run -/
+
+def CIs (s : St) (Q : List Msg) : Prop := CI s.ecuMap s.bufLcs s.outIds Q
+
+theorem outIds_of_out (a b : St) (h : a.out = b.out) : a.outIds = b.outIds := by unfold St.outIds; rw [h]
+
+theorem confirmLc_ci (s : St) (m : Msg) (x : Nat) (lc : Lc) (extra : List Msg) (hn : s.bufLcs.Nodup)
+    (h : CIs s (s.bufMsgs ++ extra)) : CIs (s.confirmLc m x lc) ((s.confirmLc m x lc).bufMsgs ++ extra) := by
+  unfold St.confirmLc
+  split
+  · exact h
+  · split
+    · exact h
+    · split
+      · unfold St.release
+        apply release_go_ci s.bufMsgs _ lc.id extra
+        · show lc.id ∉ s.bufLcs.erase lc.id
+          exact List.Nodup.not_mem_erase hn
+        · show CI s.ecuMap (s.bufLcs.erase lc.id) s.outIds (s.bufMsgs ++ extra)
+          exact ci_unbuffer _ _ _ _ _ h (fun i hi => List.mem_of_mem_erase hi)
+      · exact h
+
+theorem confirm_inner_ci (m : Msg) (x : Nat) (extra : List Msg) (lcs : List Lc) : ∀ (s : St), LInv s →
+    FInv s (s.bufMsgs ++ extra) → (∀ lc ∈ lcs, Live s.ecuMap lc) → CIs s (s.bufMsgs ++ extra) →
+    CIs (lcs.foldl (fun s lc => s.confirmLc m x lc) s) ((lcs.foldl (fun s lc => s.confirmLc m x lc) s).bufMsgs ++ extra) := by
+  induction lcs with
+  | nil => intro s _ _ _ h; exact h
+  | cons a t ih =>
+    intro s hi hf hl h
+    simp only [List.foldl_cons]
+    have h1 := confirmLc_inv s m x a hi (hl a (by simp))
+    obtain ⟨h2, _⟩ := confirmLc_frame s m x a
+    exact ih _ h1 (confirmLc_finv s m x a extra hi hf (hl a (by simp)))
+      (by intro lc hlc; rw [h2]; exact hl lc (by simp [hlc])) (confirmLc_ci s m x a extra hf.bufNodup h)
+
+theorem confirm_outer_ci (m : Msg) (x : Nat) (extra : List Msg) (ps : List (Nat × List Lc)) : ∀ (s : St), LInv s →
+    FInv s (s.bufMsgs ++ extra) → (∀ p ∈ ps, p ∈ s.ecuMap) → CIs s (s.bufMsgs ++ extra) →
+    CIs (ps.foldl (fun s (p : Nat × List Lc) => p.2.reverse.foldl (fun s lc => s.confirmLc m x lc) s) s)
+      ((ps.foldl (fun s (p : Nat × List Lc) => p.2.reverse.foldl (fun s lc => s.confirmLc m x lc) s) s).bufMsgs ++ extra) := by
+  induction ps with
+  | nil => intro s _ _ _ h; exact h
+  | cons p t ih =>
+    intro s hi hf hl h
+    simp only [List.foldl_cons]
+    have hlive : ∀ lc ∈ p.2.reverse, Live s.ecuMap lc := by
+      intro lc hlc; exact ⟨p, hl p (by simp), by simpa using hlc⟩
+    obtain ⟨h1, h2, _⟩ := confirm_inner_inv m x p.2.reverse s hi hlive
+    exact ih _ h1 (confirm_inner_finv m x extra p.2.reverse s hi hf hlive)
+      (by intro q hq; rw [h2]; exact hl q (by simp [hq])) (confirm_inner_ci m x extra p.2.reverse s hi hf hlive h)
+
+theorem confirm_ci (s : St) (m : Msg) (extra : List Msg) (hi : LInv s) (hf : FInv s (s.bufMsgs ++ extra))
+    (h : CIs s (s.bufMsgs ++ extra)) : CIs (s.confirm m) ((s.confirm m).bufMsgs ++ extra) := by
+  unfold St.confirm
+  split
+  · split
+    · exact confirm_outer_ci m (m.recv - (m.tsUs + maxDelay)) extra s.ecuMap s hi hf (fun p hp => hp) h
+    · exact h
+  · exact h
+
+/-- the two merge paths -/
+theorem mergeTail_ci (s : St) (hi : LInv s) (hf : FInv s s.bufMsgs) (h : CIs s s.bufMsgs) (e : Nat) (last lc2 prev : Lc)
+    (rest2Rev : List Lc) (hold : oldList s.ecuMap e = (last :: prev :: rest2Rev).reverse) (hid : lc2.id = last.id)
+    (hn : lc2.nrMsgs = last.nrMsgs + 1) (mq : Msg) (hmq : mq.lc = prev.id) (hme : mq.ecu = e) (hnone : cntI last.id s.outIds = 0) :
+    CIs (s.mergeTail lc2.id prev.id e ((prev.merge lc2 :: rest2Rev).reverse))
+      ((s.mergeTail lc2.id prev.id e ((prev.merge lc2 :: rest2Rev).reverse)).bufMsgs ++ [mq]) := by
+  have hold' : oldList s.ecuMap e = rest2Rev.reverse ++ [prev, last] := by rw [hold]; simp
+  have base := ci_merge s.ecuMap s.nextId hi.map s.bufLcs hf.bufNodup s.outIds s.bufMsgs h e rest2Rev.reverse prev last lc2 mq
+    hold' hid hn hmq hme hnone
+  unfold St.mergeTail
+  simp only []
+  obtain ⟨u1, u2, u3, _, _, _, u7⟩ :=
+    unpublishIfConfirmed_facts { s with bufMsgs := relabel lc2.id prev.id s.bufMsgs } lc2.id hi.pend
+  generalize (St.unpublishIfConfirmed { s with bufMsgs := relabel lc2.id prev.id s.bufMsgs } lc2.id) = s2 at *
+  have u1' : s2.bufLcs = s.bufLcs := u1
+  have u2' : s2.bufMsgs = relabel lc2.id prev.id s.bufMsgs := u2
+  have u3' : s2.ecuMap = s.ecuMap := u3
+  have u7' : s2.out = s.out := u7
+  have e1 : (setEcu { s2 with bufLcs := s2.bufLcs.erase lc2.id } e ((prev.merge lc2 :: rest2Rev).reverse)).ecuMap
+      = assocSet e (rest2Rev.reverse ++ [prev.merge lc2]) s.ecuMap := by
+    show assocSet e ((prev.merge lc2 :: rest2Rev).reverse) s2.ecuMap = _
+    rw [u3', List.reverse_cons]
+  have e2 : (setEcu { s2 with bufLcs := s2.bufLcs.erase lc2.id } e ((prev.merge lc2 :: rest2Rev).reverse)).bufLcs
+      = s.bufLcs.erase last.id := by
+    show s2.bufLcs.erase lc2.id = _
+    rw [u1', hid]
+  have e3 : (setEcu { s2 with bufLcs := s2.bufLcs.erase lc2.id } e ((prev.merge lc2 :: rest2Rev).reverse)).outIds = s.outIds :=
+    outIds_of_out _ _ u7'
+  have e4 : (setEcu { s2 with bufLcs := s2.bufLcs.erase lc2.id } e ((prev.merge lc2 :: rest2Rev).reverse)).bufMsgs
+      = relabel last.id prev.id s.bufMsgs := by
+    show s2.bufMsgs = _
+    rw [u2', hid]
+  generalize (setEcu { s2 with bufLcs := s2.bufLcs.erase lc2.id } e ((prev.merge lc2 :: rest2Rev).reverse)) = s4 at *
+  have h4 : CIs s4 (s4.bufMsgs ++ [mq]) := by
+    unfold CIs; rw [e1, e2, e3, e4]; exact base
+  unfold St.flushIfDrained
+  split
+  · rename_i hc
+    have hb : s4.bufLcs = [] := by
+      simp only [Bool.and_eq_true, List.isEmpty_iff] at hc; exact hc.1
+    unfold St.flushAll
+    have hbm : (St.flushAll.go s4 0 s4.bufMsgs).bufMsgs = [] := (flushAll_go s4 0 s4.bufMsgs).2.1
+    have hbl : (St.flushAll.go s4 0 s4.bufMsgs).bufLcs = [] := by rw [(flushAll_go s4 0 s4.bufMsgs).2.2]; exact hb
+    have := flushAll_go_ci s4.bufMsgs s4 0 [mq] hb (by rw [← hb]; exact h4)
+    unfold CIs
+    rw [hbm, hbl]
+    exact this
+  · exact h4
+
+theorem apply_n_none (l : Lc) (id : Nat) (m : Msg) (u : Upd) (h : (l.apply id m u).2.2 = none) :
+    (l.apply id m u).1.nrMsgs = l.nrMsgs + 1 := by
+  have := apply_n l id m u
+  rw [h] at this
+  simpa using this
+
+theorem apply_n_some (l : Lc) (id : Nat) (m : Msg) (u : Upd) (nl : Lc) (h : (l.apply id m u).2.2 = some nl) : nl.nrMsgs = 1 := by
+  have := apply_n l id m u
+  have hf := (apply_facts l id m u).2.2.2
+  rw [h] at this hf
+  simp only [] at this hf
+  rw [hf.2.2.2] at this
+  omega
+
+theorem assign_ci (s : St) (m : Msg) (hi : LInv s) (hf : FInv s s.bufMsgs) (h : CIs s s.bufMsgs) :
+    CIs (s.assign m).1 ((s.assign m).1.bufMsgs ++ [(s.assign m).2]) := by
+  unfold St.assign
+  split
+  · rename_i hold
+    have ho : oldList s.ecuMap m.ecu = [] := by unfold oldList; simpa using hold
+    unfold St.assignNew
+    simp only []
+    obtain ⟨n1, n2, n3, n4⟩ := new_facts s.nextId m
+    have n5 : (Lc.new s.nextId m).1.nrMsgs = 1 := rfl
+    generalize Lc.new s.nextId m = r at *
+    have := ci_new s.ecuMap s.nextId hi.map s.bufLcs s.outIds s.bufMsgs h m.ecu r.1 r.2 n1 n2 n5 n3 n4
+    rw [ho, List.nil_append] at this
+    show CI (assocSet m.ecu [r.1] s.ecuMap) (s.bufLcs ++ [r.1.id]) s.outIds (s.bufMsgs ++ [r.2])
+    rw [n1]; exact this
+  · rename_i last restRev hold
+    have ho : oldList s.ecuMap m.ecu = (last :: restRev).reverse := by
+      unfold oldList
+      have := congrArg List.reverse hold
+      simpa using this
+    unfold St.assignExisting
+    simp only []
+    obtain ⟨f1, f2, f3, f4⟩ := apply_facts last s.nextId m (last.classify m)
+    have g1 := apply_n_none last s.nextId m (last.classify m)
+    have g2 := apply_n_some last s.nextId m (last.classify m)
+    have hu : last.update s.nextId m = last.apply s.nextId m (last.classify m) := rfl
+    rw [← hu] at f1 f2 f3 f4 g1 g2
+    generalize last.update s.nextId m = r at *
+    split
+    · rename_i nl hnl
+      rw [hnl] at f4
+      obtain ⟨k1, k2, k3, k4⟩ := f4
+      have := ci_new s.ecuMap s.nextId hi.map s.bufLcs s.outIds s.bufMsgs h m.ecu nl r.2.1 k2 k3 (g2 nl hnl) k1 f3
+      rw [ho] at this
+      show CI (assocSet m.ecu ((nl :: r.1 :: restRev).reverse) s.ecuMap) (s.bufLcs ++ [nl.id]) s.outIds (s.bufMsgs ++ [r.2.1])
+      rw [k2, k4]
+      simpa using this
+    · rename_i hnone
+      rw [hnone] at f4
+      have f4' : r.2.1.lc = last.id := f4
+      have hkeep : ∀ rr : List Lc, restRev = rr →
+          CI (assocSet m.ecu ((r.1 :: rr).reverse) s.ecuMap) s.bufLcs s.outIds (s.bufMsgs ++ [r.2.1]) := by
+        intro rr hrr
+        subst hrr
+        have := ci_keep s.ecuMap s.nextId hi.map s.bufLcs s.outIds s.bufMsgs h m.ecu restRev.reverse last r.1 r.2.1
+          (by rw [ho]; simp) f1 f2 (g1 hnone) f4' f3
+        simpa using this
+      split
+      · exact hkeep [] rfl
+      · rename_i prev rest2Rev
+        unfold St.maybeMerge
+        have hlastIn : last ∈ oldList s.ecuMap m.ecu := by rw [ho]; simp
+        have hprevIn : prev ∈ oldList s.ecuMap m.ecu := by rw [ho]; simp
+        have hlastLive := oldList_live _ _ last hlastIn
+        have hprevLive := oldList_live _ _ prev hprevIn
+        have hsort := sorted_of_oldList s.ecuMap m.ecu h.sorted
+        have hpl : prev.id < last.id := by
+          rw [ho] at hsort
+          have e0 : (last :: prev :: rest2Rev).reverse = rest2Rev.reverse ++ [prev, last] := by simp
+          rw [e0, List.map_append, List.pairwise_append] at hsort
+          have := hsort.2.1
+          simpa using this
+        split
+        · split
+          · rename_i _ hc
+            rw [f3]
+            have hpb : prev.id ∈ s.bufLcs := by simpa using hc
+            have hecu : prev.ecu = last.ecu := by
+              rw [oldList_ecu s.ecuMap s.nextId m.ecu hi.map prev hprevIn, oldList_ecu s.ecuMap s.nextId m.ecu hi.map last hlastIn]
+            have hnone' := (h.older prev last hprevLive hlastLive hecu hpl hpb).1
+            exact mergeTail_ci s hi hf h m.ecu last r.1 prev rest2Rev ho f1 (g1 hnone) _ rfl rfl hnone'
+          · split
+            · rename_i _ _ hc
+              rw [f3]
+              have hcnt : cntM last.id s.bufMsgs + 1 = r.1.nrMsgs := by
+                have : (s.bufMsgs.filter (fun x => x.lc == r.1.id)).length + 1 = r.1.nrMsgs := by simpa using hc
+                rw [f1] at this; exact this
+              have hnone' : cntI last.id s.outIds = 0 := by
+                have := h.cnt last hlastLive
+                have := g1 hnone
+                omega
+              exact mergeTail_ci s hi hf h m.ecu last r.1 prev rest2Rev ho f1 (g1 hnone) _ rfl rfl hnone'
+            · rw [f3]; exact hkeep _ rfl
+        · rw [f3]; exact hkeep _ rfl
+
+theorem deliver_ci (s : St) (m : Msg) (hok : s.ok) (h : CIs s (s.bufMsgs ++ [m])) : CIs (s.deliver m) (s.deliver m).bufMsgs := by
+  unfold St.deliver
+  split
+  · exact h
+  · rename_i hb
+    have he : s.bufLcs = [] := by simpa using hb
+    have hm : s.bufMsgs = [] := hok he
+    rw [hm, List.nil_append] at h
+    obtain ⟨_, b, c⟩ := mark_core s m.lc
+    show CI (s.mark m.lc).ecuMap (s.mark m.lc).bufLcs ((s.mark m.lc).emit m).outIds (s.mark m.lc).bufMsgs
+    rw [outIds_emit, outIds_mark, b, c, mark_buf, hm]
+    exact ci_pop _ _ _ m [] h (by rw [he]; simp)
+
+theorem step_ci (s : St) (m : Msg) (hi : LInv s) (hp : IdPos s) (hf : FInv s s.bufMsgs) (hok : s.ok) (h : CIs s s.bufMsgs) :
+    CIs (s.step m) (s.step m).bufMsgs := by
+  unfold St.step
+  split
+  · exact h
+  · simp only []
+    have ha := assign_ci s m hi hf h
+    have haf := assign_finv s m hi hp hf
+    obtain ⟨ai, _⟩ := assign_inv s hi m
+    split
+    · rename_i hs _ hpan
+      rw [assign_panicked] at hpan
+      exact absurd hpan hs
+    · have aok := (assign_spec s m).2.2 hok
+      have cok := (confirm_pres (s.assign m).1 (s.assign m).2).ok aok
+      exact deliver_ci _ _ cok (confirm_ci _ _ [(s.assign m).2] ai haf ha)
+
+theorem step_ok (s : St) (m : Msg) (hok : s.ok) : (s.step m).ok := by
+  unfold St.step
+  split
+  · exact hok
+  · simp only []
+    split
+    · exact (assign_spec s m).2.2 hok
+    · have aok := (assign_spec s m).2.2 hok
+      have cok := (confirm_pres (s.assign m).1 (s.assign m).2).ok aok
+      exact (deliver_spec _ _ cok).2
+
+theorem steps_ci (ms : List Msg) (s : St) (hi : LInv s) (hp : IdPos s) (hf : FInv s s.bufMsgs) (hok : s.ok) (h : CIs s s.bufMsgs) :
+    CIs (ms.foldl St.step s) (ms.foldl St.step s).bufMsgs := by
+  induction ms generalizing s with
+  | nil => exact h
+  | cons m t ih =>
+    exact ih _ (step_inv s hi m) (idpos_step s m hp) (step_finv s m hi hp hf) (step_ok s m hok) (step_ci s m hi hp hf hok h)
+
+theorem init_ci : CIs ({} : St) [] := by
+  refine ⟨?_, ?_, ?_, ?_, ?_, ?_, ?_⟩
+  · intro lc ⟨p, hp, _⟩; cases hp
+  · intro lc ⟨p, hp, _⟩; cases hp
+  · intro lc ⟨p, hp, _⟩; cases hp
+  · intro p hp; cases hp
+  · intro m hm; cases hm
+  · intro p hp; cases hp
+  · intro a b ⟨p, hp, _⟩; cases hp
+
+/-! ### the end of the stream -/
+
+theorem ci_drain (em : List (Nat × List Lc)) : ∀ (Q : List Msg) (oi : List (Nat × Nat)), CI em [] oi Q →
+    CI em [] ((Q.reverse.map fun m => (m.lc, m.ecu)) ++ oi) [] := by
+  intro Q
+  induction Q with
+  | nil => intro oi h; exact h
+  | cons m t ih =>
+    intro oi h
+    have := ih _ (ci_pop em [] oi m t h (by simp))
+    simpa using this
+
+theorem flushOne_fold_outIds (l : List Msg) : ∀ (x : St), (l.foldl St.flushOne x).outIds = (l.reverse.map fun m => (m.lc, m.ecu)) ++ x.outIds := by
+  induction l with
+  | nil => intro x; rfl
+  | cons m t ih =>
+    intro x
+    simp only [List.foldl_cons]
+    rw [ih, St.flushOne, outIds_emit, outIds_mark]
+    simp
+
+theorem finish_outIds (s : St) (hs : s.panicked = false) :
+    s.finish.outIds = (s.bufMsgs.reverse.map fun m => (m.lc, m.ecu)) ++ s.outIds := by
+  unfold St.finish
+  simp only [hs, Bool.false_eq_true, if_false]
+  generalize h1 : (s.publishWhere fun s lc => s.bufLcs.contains lc.id).refresh = s1
+  have q1 : s1.out = s.out ∧ s1.bufMsgs = s.bufMsgs := by
+    subst h1
+    have := publishWhere_qsame (fun s lc => s.bufLcs.contains lc.id) s
+    exact ⟨this.out, this.buf⟩
+  generalize h2 : ({ s1.bufMsgs.foldl St.flushOne s1 with bufMsgs := [] } : St) = s2
+  have q2 : s2.outIds = (s.bufMsgs.reverse.map fun m => (m.lc, m.ecu)) ++ s.outIds := by
+    subst h2
+    show (s1.bufMsgs.foldl St.flushOne s1).outIds = _
+    rw [flushOne_fold_outIds, q1.2, outIds_of_out s1 s q1.1]
+  have q3 := publishWhere_qsame (fun s lc => s.toRefresh.contains lc.id) s2
+  rw [← q2]
+  exact outIds_of_out _ _ q3.out
+
+/-- at the end: every live lifecycle counts exactly the delivered messages that carry its id; every delivered id is live -/
+theorem run_counts (ms : List Msg) :
+    (∀ lc, Live (run ms).ecuMap lc → lc.nrMsgs = cntI lc.id (run ms).outIds ∧ 1 ≤ lc.nrMsgs) ∧
+    (∀ p ∈ (run ms).outIds, ∃ lc, Live (run ms).ecuMap lc ∧ lc.id = p.1 ∧ lc.ecu = p.2) := by
+  have hi := steps_inv ms {} init_inv
+  have hf := steps_finv ms {} init_inv idpos_init init_finv
+  have hc := steps_ci ms {} init_inv idpos_init init_finv (fun _ => rfl) init_ci
+  have hnp : (ms.foldl St.step ({} : St)).panicked = false := by rw [foldl_panicked _ step_panicked]
+  have hem : (run ms).ecuMap = (ms.foldl St.step {}).ecuMap := finish_ecuMap _
+  have ho : (run ms).outIds = _ := finish_outIds (ms.foldl St.step {}) hnp
+  have hd := ci_drain _ _ _ (ci_unbuffer _ _ [] _ _ hc (fun i hi' => by cases hi'))
+  rw [← ho, ← hem] at hd
+  refine ⟨?_, hd.outLive⟩
+  intro lc hl
+  have := hd.cnt lc hl
+  exact ⟨by simpa [cntM] using this, hd.pos lc hl⟩
+
 end Lcm
